@@ -136,6 +136,7 @@ def run_check(ctx):
             # generated code must not mention an entity that is not exported
             mentioned = marks.get(cs.i, set())
             okset = set(exp["callable"]) | {("m", c, j) for (c, j) in exp["known"] if j}
+            okset |= {("t", 0, t) for t, d in enumerate(cs.tops, 1) if d["k"] == "tdefc"}   # typedef names: no claim
             bad = {e for e in mentioned if e not in okset}
             if bad:
                 ctx.violation("generated wrapper code mentions non-exported entities %s  [%s]" % (
